@@ -7,6 +7,8 @@ CLAIMED = {
     "C01": ("reference-model monitor: every observation of matmul / rmatmul / transpose / to_dense / shape on generated operators (all classes, nestings, batch and rhs broadcasting kinds) is compared with torch.matmul on the dense matrix built from the same raw tensors and with the denotation of the live constructor arguments",
             "runtime monitoring: reference-model (dense denotation) monitor over generated operator trees"),
 }
+CLAIMED["C03"] = ("reference-model monitor: op[index] and diagonal() for index tuples drawn from the property's grammar on every class and nestings, compared with torch indexing of the dense matrix; explicit not-supported errors accepted; failing cases shrunk before fingerprinting",
+                  "runtime monitoring: reference-model monitor (torch indexing of the dense denotation) with case shrinking")
 PENDING = {}
 def main():
     hooks_commits = []
@@ -32,7 +34,7 @@ def main():
         version=1,
         setup_cmd="./setup.sh",
         hooks=dict(guard="LINEAR_OPERATOR_VERIF", enable="checks export LINEAR_OPERATOR_VERIF=1 before importing /repo (editable install, no build step)",
-                   baseline_off_cmd="cd /repo && env -u LINEAR_OPERATOR_VERIF " + BASE["cmd"].replace("cd /repo && ", "").replace("--junitxml=<file>", "--junitxml=/tmp/lo_baseline_off.junit.xml"),
+                   baseline_off_cmd="cd /repo && env -u LINEAR_OPERATOR_VERIF " + BASE["cmd"].replace("cd /repo && ", "").replace("--junitxml=<file>", "--junitxml=/verif/.run/baseline_off.junit.xml"),
                    source_commits=hooks_commits, add_only=True),
         engines=[dict(name="lomon", path="/verif/lomon", serves_properties=sorted(CLAIMED), kind_free_text="runtime monitors (reference-model, hook invariants, torch-level sanitizers) driven by seeded workloads in 16 worker processes")],
         checks=checks,
